@@ -1,0 +1,27 @@
+//go:build verif
+// +build verif
+
+package hotrestart
+
+// Contracts for the deductive verifier in /verif (govc). Comment-only file.
+
+//@ func newMessage
+//@   mode bv
+//@   prop C17
+//@   ensures @len-matches-payload result1 == nil ==> result0 != nil && int(result0.Len) == len(result0.Data) && result0.Type == typ && result0.Len <= 65532
+
+//@ func sendMessage
+//@   mode bv
+//@   prop C17
+//@   requires msg != nil && int(msg.Len) == len(msg.Data) && msg.Len <= 65532
+//@   modifies sentBuf
+//@   ensures @frame-layout len(sentBuf) == 3 + int(msg.Len) && sentBuf[0] == byte(msg.Type) && sentBuf[1] == byte(msg.Len >> 8) && sentBuf[2] == byte(msg.Len)
+//@   ensures @frame-payload forall k int :: 0 <= k && k < int(msg.Len) ==> sentBuf[3+k] == msg.Data[k]
+
+//@ func readMessage
+//@   mode bv
+//@   prop C17
+//@   modifies recvBuf, recvN
+//@   ensures @header result1 == nil ==> result0 != nil && recvN >= 3 && byte(result0.Type) == recvBuf[0] && result0.Len == (uint16(recvBuf[1]) << 8 | uint16(recvBuf[2]))
+//@   ensures @payload-inside-received-bytes result1 == nil ==> 3 + int(result0.Len) <= recvN
+//@   ensures @payload result1 == nil ==> sameslice(result0.Data, recvBuf[3:3+int(result0.Len)])
